@@ -28,6 +28,9 @@ def main():
                 continue
             prop = e["props"][0] if want == "all" else want
             r = subprocess.run([os.path.join(VERIF, "bin", "govc"), "-repo", scratch, "-props", prop, "-timeout", "10000"], env=ENV, capture_output=True, text=True)
+            if r.returncode != 0 or "govc: load" in (r.stdout + r.stderr):
+                print("ERROR %s: verifier did not run on the patched copy: %s" % (e["patch"], (r.stdout + r.stderr).strip()[-200:])); skipped += 1
+                continue
             hits = [l for l in r.stdout.splitlines() if l.strip().startswith("FAIL") and e["expect"] in l]
             ran += 1
             if hits:
